@@ -191,7 +191,12 @@ def add_lowest(p, rng):
     elif rng.random() < 0.4:
         # a pinned start does not change the rank of the task: it is still served last
         t["start"] = q["start"] + rng.choice([0, 9, 10, 33, 57]) * 3600
-    q["tasks"].append(t)
+    if rng.random() < 0.25:
+        # declared FIRST: where the added task stands in the file does not matter either (its priority is strictly lowest);
+        # the two-run theorem speaks about a task appended to the list, so these pairs are judged by the oracle only
+        q["tasks"].insert(0, t)
+    else:
+        q["tasks"].append(t)
     return q
 
 
@@ -212,6 +217,10 @@ def run_c09(chk):
     k3 = Knobs(envelope="asap", max_res=3, max_tasks=6, p_alt=0.7, p_team=0.0, p_dep=0.3, p_container=0.2, p_limits=0.0,
                p_wh=0.15, p_leave=0.2, big_effort=0.5, dur_weeks=[3, 4])
     asts += [gen.gen_project(chk.rng, k3) for _ in range(n // 4)]
+    # a family with several scenarios (effort overrides per scenario) and priorities on most tasks: the added task must be
+    # harmless in EVERY scenario, not only in the first
+    k4 = Knobs(envelope="asap", p_scen=1.0, max_res=2, max_tasks=6, p_dep=0.3, p_container=0.3, p_limits=0.1, dur_weeks=[3, 4])
+    asts += [gen.gen_project(chk.rng, k4) for _ in range(n // 5)]
     from .common import replay_asts, replay_items
     replay_plus = None
     if replay_asts(chk) is not None:
@@ -258,23 +267,25 @@ def run_c09(chk):
         o1 = r["obs"]
         if not o1 or "error" in o1 or "error" in o2:
             continue
-        s1, s2 = o1["scenarios"][0], o2["scenarios"][0]
-        if any(not o["scheduled"] for o in s1["tasks"].values() if o["leaf"]) or any(not o["scheduled"] for o in s2["tasks"].values() if o["leaf"]):
-            continue        # "as long as everything still fits the horizon"
-        t1, t2 = task_table(s1), task_table(s2, skip=("zlow",))
-        if t1 != t2:
-            fid = next(f for f in t1 if t1[f] != t2.get(f))
-            found.append((f"C09: adding the lowest-priority task zlow changed task {fid}: {t1[fid]} -> {t2.get(fid)}",
-                          {"ast": p, "text": r["text"], "with_added": render.render(q), "with_added_ast": q, "task": fid}))
-        # did the intruder actually compete for a resource?
-        zl = s2["tasks"].get("zlow")
-        if zl and zl["scheduled"]:
-            nontriv += 1
+        for si, (s1, s2) in enumerate(zip(o1["scenarios"], o2["scenarios"])):
+            if any(not o["scheduled"] for o in s1["tasks"].values() if o["leaf"]) or any(not o["scheduled"] for o in s2["tasks"].values() if o["leaf"]):
+                continue        # "as long as everything still fits the horizon"
+            t1, t2 = task_table(s1), task_table(s2, skip=("zlow",))
+            if t1 != t2:
+                fid = next(f for f in t1 if t1[f] != t2.get(f))
+                where = f" in scenario {s1.get('id', si)}" if len(o1["scenarios"]) > 1 else ""
+                found.append((f"C09: adding the lowest-priority task zlow changed task {fid}{where}: {t1[fid]} -> {t2.get(fid)}",
+                              {"ast": p, "text": r["text"], "with_added": render.render(q), "with_added_ast": q, "task": fid}))
+                break
+            # did the intruder actually compete for a resource?
+            zl = s2["tasks"].get("zlow")
+            if zl and zl["scheduled"] and si == 0:
+                nontriv += 1
     chk.cov["evaluations"] += len(plus)
     chk.cov["distinct_nontrivial"] = nontriv
     chk.cov["rule"] = ("forward projects scheduled by the real code with and without an added top-level task of priority 1 (strictly lowest) on a "
                        "random resource, optionally depending on an existing task or pinned to a start date, nothing depending on it; every other task's flag/start/end must "
-                       "be identical when everything fits; base AND extended projects also compared with the Lean model; every pair is handed to the "
+                       "be identical when everything fits, in every scenario of the project (one family declares 2-4 scenarios); base AND extended projects also compared with the Lean model; every pair is handed to the "
                        "driver, which checks the hypotheses of the two-run theorem (extended environment = ext e zd, intrCheck, treeCheck, wfCheck) and "
                        "evaluates its conclusion on the model's own two runs; non-trivial = pairs in which the added task was scheduled")
     return conclude(chk, dis, lambda: found)
